@@ -133,8 +133,8 @@ def load_module(hashed_grammar, file_io, cache_path=None):
 
 
 def _load_from_file_system(hashed_grammar, path, p_time, cache_path=None):
-    cache_path = _get_hashed_path(hashed_grammar, path, cache_path=cache_path)
     try:
+        cache_path = _get_hashed_path(hashed_grammar, path, cache_path=cache_path)
         if p_time > os.path.getmtime(cache_path):
             # Cache is outdated
             return None
@@ -145,7 +145,14 @@ def _load_from_file_system(hashed_grammar, path, p_time, cache_path=None):
                 module_cache_item = pickle.load(f)
             finally:
                 gc.enable()
+        if not isinstance(module_cache_item, _NodeCacheItem):
+            return None
     except FileNotFoundError:
+        return None
+    except Exception:
+        # An unreadable, truncated or otherwise damaged cache file (or
+        # directory) is a cache miss; the next save replaces the file.
+        LOG.debug('pickle could not be loaded: %s', path)
         return None
     else:
         _set_cache_item(hashed_grammar, path, module_cache_item)
@@ -190,8 +197,18 @@ def try_to_save_module(hashed_grammar, file_io, module, lines, pickling=True, ca
                 'Tried to save a file to %s, but got permission denied.' % path,
                 Warning
             )
+        except OSError as e:
+            # Same for a full disk, a vanished directory etc.
+            warnings.warn(
+                'Tried to save a file to %s, but failed: %s' % (path, e),
+                Warning
+            )
         else:
-            _remove_cache_and_update_lock(cache_path=cache_path)
+            try:
+                _remove_cache_and_update_lock(cache_path=cache_path)
+            except OSError:
+                # Cleaning up old cache files is optional.
+                pass
 
 
 def _save_to_file_system(hashed_grammar, path, item, cache_path=None):
